@@ -5,7 +5,7 @@ OPTS = [dict(p_wit=1.0), dict(p_wit=1.0, p_nested=0.35, p_struct=0.7), dict(p_wi
 
 
 def run(rep):
-    core_check(rep, "C06", [dict(o) for o in OPTS], 96, 1600, nontrivial_key="impl_designs_built")
+    core_check(rep, "C06", [dict(o) for o in OPTS], 64, 1600, nontrivial_key="impl_designs_built")
     rep.coverage["rule"] = ("random designs from vlib/coregen.py's grammar built with the real API, every valuation of the "
                             "control inputs (or random ones when there are many), both directions bound by TxnCoreTrace; "
                             "witness signals in comb/sync/av_comb/top_comb at random depths: WitComb, WitAv, WitTop, WitSync, AvReadyGated; distinct_nontrivial = built designs")
